@@ -1,4 +1,395 @@
-(* placeholder: model under construction *)
-From Coq Require Import List ZArith.
+(* Model of TexSoup.utils.Buffer (utils.py:273-459), as the code is.
+
+   Items are abstract (Z): for a string-backed buffer an item is a code point,
+   for a token-backed buffer it is the (one-character) text of a token.  Items
+   are assumed to be non-empty strings (bool(item) is True), as they are for
+   every buffer the library builds.  Item *positions* (Token.position) are not
+   part of this model.
+
+   State: the underlying sequence `items` (what the wrapped iterator yields),
+   `mat` = len(self.__queue) (the queue is always the prefix `firstn mat items`
+   because items are only ever appended from the iterator, in order), and the
+   cursor `self.__i`.
+
+   Python exceptions are explicit results (OExc).  Python's negative indexing
+   and slice clamping are applied to the *materialised queue* exactly as the
+   code does (py_index / py_slice), which is why e.g. peek(-1) at position 0
+   returns the last materialised element.  No proofs here; see
+   Proofs/BufferProofs.v. *)
+From Coq Require Import List ZArith Bool.
 Import ListNotations.
-Definition run_buf (inp : list Z) : list Z := [].
+Open Scope Z_scope.
+
+Inductive exn := StopIteration | IndexError | AssertionError | AttributeError | OutOfFuel.
+
+Inductive out :=
+| OItem (x : Z)            (* one element of the queue *)
+| ONone                    (* Python None *)
+| OItems (l : list Z)      (* join(queue[a:b]): the concatenated text *)
+| OBool (b : bool)
+| OInt (z : Z)
+| OExc (e : exn).
+
+Record state := mkS { items : list Z; mat : nat; cursor : Z }.
+
+Definition init_state (l : list Z) : state := mkS l O 0.
+Definition queue (s : state) : list Z := firstn (mat s) (items s).
+Definition set_cursor (s : state) (c : Z) : state := mkS (items s) (mat s) c.
+
+(* ------------------------------------------------ Python list indexing *)
+
+(* l[k] *)
+Definition py_index (l : list Z) (k : Z) : out :=
+  let m := Z.of_nat (length l) in
+  let k' := if k <? 0 then k + m else k in
+  if (k' <? 0) || (m <=? k') then OExc IndexError
+  else match nth_error l (Z.to_nat k') with
+       | Some x => OItem x
+       | None => OExc IndexError
+       end.
+
+(* PySlice_AdjustIndices for step 1 *)
+Definition norm_idx (m : Z) (o : option Z) (dflt : Z) : Z :=
+  match o with
+  | None => dflt
+  | Some k => if k <? 0 then Z.max (k + m) 0 else Z.min k m
+  end.
+
+(* l[lo:hi] *)
+Definition py_slice (l : list Z) (lo hi : option Z) : list Z :=
+  let m := Z.of_nat (length l) in
+  let a := norm_idx m lo 0 in
+  let b := norm_idx m hi m in
+  firstn (Z.to_nat (b - a)) (skipn (Z.to_nat a) l).
+
+(* ------------------------------------------------------------ __next__
+     while self.__i >= len(self.__queue):
+         self.__queue.append(self.__init(next(self.__iterator), self.__i))
+     self.__i += 1
+     return self.__queue[self.__i - 1]
+   The while loop appends until len(queue) = i + 1, or exhausts the iterator
+   (then every item has been appended and StopIteration propagates with the
+   cursor unchanged). *)
+Definition next_raw (s : state) : state * out :=
+  let n := length (items s) in
+  let i := cursor s in
+  if i <? Z.of_nat (mat s) then
+    (mkS (items s) (mat s) (i + 1), py_index (queue s) i)
+  else if i + 1 <=? Z.of_nat n then
+    let s' := mkS (items s) (Z.to_nat (i + 1)) (i + 1) in
+    (s', py_index (queue s') i)
+  else
+    (mkS (items s) n i, OExc StopIteration).
+
+(* ---------------------------------------------------------- __getitem__
+     old, j = self.__i, (i if int else i.stop)
+     while j is None or self.__i <= j:
+         try: next(self)
+         except StopIteration: break
+     self.__i = old
+     return self.__queue[i]  /  self.__join(self.__queue[i])
+   `advance` is the while loop, literally, one next per iteration.  An exception
+   other than StopIteration leaves the loop (and __getitem__) with the cursor
+   not restored. *)
+Definition bound_ok (c : Z) (j : option Z) : bool :=
+  match j with None => true | Some j => c <=? j end.
+
+Fixpoint advance (fuel : nat) (s : state) (j : option Z) : state * option exn :=
+  if bound_ok (cursor s) j then
+    match fuel with
+    | O => (s, Some OutOfFuel)
+    | S f =>
+      match next_raw s with
+      | (s', OExc StopIteration) => (s', None)
+      | (s', OExc e) => (s', Some e)
+      | (s', _) => advance f s' j
+      end
+    end
+  else (s, None).
+
+(* enough for every iteration the loop can make: each successful next moves the
+   cursor one step towards len(items), the first failing one ends the loop *)
+Definition advance_fuel (s : state) : nat :=
+  S (length (items s)) + Z.to_nat (- cursor s).
+
+Definition getitem_int (s : state) (k : Z) : state * out :=
+  let old := cursor s in
+  match advance (advance_fuel s) s (Some k) with
+  | (s1, Some e) => (s1, OExc e)
+  | (s1, None) => let s2 := set_cursor s1 old in (s2, py_index (queue s2) k)
+  end.
+
+Definition getitem_slice (s : state) (lo hi : option Z) : state * out :=
+  let old := cursor s in
+  match advance (advance_fuel s) s hi with
+  | (s1, Some e) => (s1, OExc e)
+  | (s1, None) => let s2 := set_cursor s1 old in (s2, OItems (py_slice (queue s2) lo hi))
+  end.
+
+(* ----------------------------------------------------------------- peek
+     try:
+         if isinstance(j, int): return self[self.__i + j]
+         return self[self.__i + j[0]:self.__i + j[1]]
+     except IndexError: return None *)
+Definition catch_index (r : state * out) : state * out :=
+  match r with
+  | (s, OExc IndexError) => (s, ONone)
+  | _ => r
+  end.
+
+Definition peek_int (s : state) (j : Z) : state * out :=
+  catch_index (getitem_int s (cursor s + j)).
+
+Definition peek_range (s : state) (a b : Z) : state * out :=
+  catch_index (getitem_slice s (Some (cursor s + a)) (Some (cursor s + b))).
+
+(* bool(x) for what peek returns; items are non-empty strings *)
+Definition truthy (o : out) : bool :=
+  match o with
+  | OItem _ => true
+  | OItems l => match l with [] => false | _ => true end
+  | OBool b => b
+  | OInt z => negb (z =? 0)
+  | ONone => false
+  | OExc _ => false
+  end.
+
+(* hasNext(n): bool(self.peek(n - 1)) *)
+Definition has_next (s : state) (n : Z) : state * out :=
+  match peek_int s (n - 1) with
+  | (s', OExc e) => (s', OExc e)
+  | (s', o) => (s', OBool (truthy o))
+  end.
+
+(* ---------------------------------------------------- forward / backward
+     forward(j):  if j < 0: return self.backward(-j)
+                  self.__i += j; return self[self.__i - j:self.__i]
+     backward(j): if j < 0: return self.forward(-j)
+                  assert self.__i - j >= 0
+                  self.__i -= j; return self[self.__i:self.__i + j] *)
+Definition forward_pos (s : state) (j : Z) : state * out :=
+  let s1 := set_cursor s (cursor s + j) in
+  getitem_slice s1 (Some (cursor s1 - j)) (Some (cursor s1)).
+
+Definition backward_pos (s : state) (j : Z) : state * out :=
+  if cursor s - j <? 0 then (s, OExc AssertionError)
+  else let s1 := set_cursor s (cursor s - j) in
+       getitem_slice s1 (Some (cursor s1)) (Some (cursor s1 + j)).
+
+Definition forward (s : state) (j : Z) : state * out :=
+  if j <? 0 then backward_pos s (- j) else forward_pos s j.
+
+Definition backward (s : state) (j : Z) : state * out :=
+  if j <? 0 then forward_pos s (- j) else backward_pos s j.
+
+(* ------------------------------------------------ startswith / endswith
+     startswith(s): self.peek((0, len(s))).startswith(s)
+     endswith(s):   self.peek((-len(s), 0)).endswith(s)          (str methods) *)
+Fixpoint is_prefix (p l : list Z) : bool :=
+  match p, l with
+  | [], _ => true
+  | _ :: _, [] => false
+  | x :: p', y :: l' => (x =? y) && is_prefix p' l'
+  end.
+
+Definition is_suffix (p l : list Z) : bool := is_prefix (rev p) (rev l).
+
+Definition starts_with (s : state) (p : list Z) : state * out :=
+  match peek_range s 0 (Z.of_nat (length p)) with
+  | (s', OItems l) => (s', OBool (is_prefix p l))
+  | (s', OExc e) => (s', OExc e)
+  | (s', _) => (s', OExc AttributeError)         (* None.startswith *)
+  end.
+
+Definition ends_with (s : state) (p : list Z) : state * out :=
+  match peek_range s (- Z.of_nat (length p)) 0 with
+  | (s', OItems l) => (s', OBool (is_suffix p l))
+  | (s', OExc e) => (s', OExc e)
+  | (s', _) => (s', OExc AttributeError)
+  end.
+
+(* --------------------------------- forward_until / num_forward_until
+   The condition is drawn from a fixed family chosen by an integer k:
+     k >= 0:  lambda x: x == item k          k < 0:  lambda x: x != item (-k)
+   applied to what peek() returns (None == c is False, None != c is True). *)
+Definition pred (k x : Z) : bool :=
+  if 0 <=? k then x =? k else negb (x =? - k).
+Definition pred_none (k : Z) : bool := k <? 0.
+
+Definition cond_holds (k : Z) (o : out) : bool :=
+  match o with
+  | OItem x => pred k x
+  | _ => pred_none k
+  end.
+
+(* the shared loop
+     while self.hasNext() and not condition(self.peek()):
+         c += self.forward(1) ; i += 1
+   returns the state, the exception that left the loop (if any), c and i *)
+Fixpoint scan (fuel : nat) (s : state) (k : Z) (acc : list Z) (cnt : Z)
+  : state * option exn * list Z * Z :=
+  match fuel with
+  | O => (s, Some OutOfFuel, acc, cnt)
+  | S f =>
+    match has_next s 1 with
+    | (s1, OExc e) => (s1, Some e, acc, cnt)
+    | (s1, OBool false) => (s1, None, acc, cnt)
+    | (s1, _) =>
+      match peek_int s1 0 with
+      | (s2, OExc e) => (s2, Some e, acc, cnt)
+      | (s2, pk) =>
+        if cond_holds k pk then (s2, None, acc, cnt)
+        else match forward s2 1 with
+             | (s3, OItems l) => scan f s3 k (acc ++ l) (cnt + 1)
+             | (s3, OExc e) => (s3, Some e, acc, cnt)
+             | (s3, _) => (s3, Some AttributeError, acc, cnt)
+             end
+      end
+    end
+  end.
+
+Definition scan_fuel (s : state) : nat := S (S (length (items s))).
+
+(* forward_until(condition):
+     first = self.peek(); c = Token('', first.position or self.__i)
+     while ...: c += self.forward(1)
+     return c *)
+Definition forward_until (s : state) (k : Z) : state * out :=
+  match peek_int s 0 with
+  | (s0, OExc e) => (s0, OExc e)
+  | (s0, _) =>
+    match scan (scan_fuel s0) s0 k [] 0 with
+    | (s1, Some e, _, _) => (s1, OExc e)
+    | (s1, None, acc, _) => (s1, OItems acc)
+    end
+  end.
+
+(* num_forward_until(condition):
+     i, c = 0, ''
+     while ...: c += self.forward(1); i += 1
+     assert self.backward(i) == c
+     return i *)
+Fixpoint list_eqb (a b : list Z) : bool :=
+  match a, b with
+  | [], [] => true
+  | x :: a', y :: b' => (x =? y) && list_eqb a' b'
+  | _, _ => false
+  end.
+
+Definition num_forward_until (s : state) (k : Z) : state * out :=
+  match scan (scan_fuel s) s k [] 0 with
+  | (s1, Some e, _, _) => (s1, OExc e)
+  | (s1, None, acc, cnt) =>
+    match backward s1 cnt with
+    | (s2, OItems l) => if list_eqb l acc then (s2, OInt cnt) else (s2, OExc AssertionError)
+    | (s2, OExc e) => (s2, OExc e)
+    | (s2, _) => (s2, OExc AssertionError)
+    end
+  end.
+
+(* ------------------------------------------------------------ operations *)
+
+Inductive op :=
+| Next
+| HasNext (n : Z)
+| Peek (j : Z)
+| PeekR (a b : Z)
+| Forward (j : Z)
+| Backward (j : Z)
+| Slice (lo hi : option Z)          (* b[lo:hi] *)
+| Getitem (k : Z)                   (* b[k] *)
+| Startswith (p : list Z)
+| Endswith (p : list Z)
+| ForwardUntil (k : Z)
+| NumForwardUntil (k : Z)
+| Position.
+
+Definition step (s : state) (o : op) : state * out :=
+  match o with
+  | Next => next_raw s
+  | HasNext n => has_next s n
+  | Peek j => peek_int s j
+  | PeekR a b => peek_range s a b
+  | Forward j => forward s j
+  | Backward j => backward s j
+  | Slice lo hi => getitem_slice s lo hi
+  | Getitem k => getitem_int s k
+  | Startswith p => starts_with s p
+  | Endswith p => ends_with s p
+  | ForwardUntil k => forward_until s k
+  | NumForwardUntil k => num_forward_until s k
+  | Position => (s, OInt (cursor s))
+  end.
+
+(* outputs and cursor after every operation *)
+Fixpoint run_ops (s : state) (ops : list op) : list (out * Z) :=
+  match ops with
+  | [] => []
+  | o :: r => let (s', x) := step s o in (x, cursor s') :: run_ops s' r
+  end.
+
+(* ------------------------------------------------ generic driver entry
+   input  [n; item_1 .. item_n; op codes ...]
+     0 next | 1 n hasNext | 2 j peek | 3 a b peek((a,b)) | 4 j forward | 5 j backward
+     6 flo lo fhi hi  b[lo:hi] (flag 0 = None) | 7 k b[k]
+     8 m p_1..p_m startswith | 9 m p_1..p_m endswith
+     10 k forward_until | 11 k num_forward_until | 12 position
+   output, per operation: <encoded out> cursor len(queue)
+     1 x item | 2 None | 3 m x_1..x_m joined items | 4 b bool | 5 z int | 6 e exception
+     (1 StopIteration, 2 IndexError, 3 AssertionError, 4 AttributeError, 5 OutOfFuel) *)
+Definition opt_of (flag v : Z) : option Z := if flag =? 0 then None else Some v.
+
+Fixpoint decode_ops (fuel : nat) (l : list Z) : list op :=
+  match fuel with
+  | O => []
+  | S f =>
+    match l with
+    | 0 :: r => Next :: decode_ops f r
+    | 1 :: n :: r => HasNext n :: decode_ops f r
+    | 2 :: j :: r => Peek j :: decode_ops f r
+    | 3 :: a :: b :: r => PeekR a b :: decode_ops f r
+    | 4 :: j :: r => Forward j :: decode_ops f r
+    | 5 :: j :: r => Backward j :: decode_ops f r
+    | 6 :: fl :: lo :: fh :: hi :: r => Slice (opt_of fl lo) (opt_of fh hi) :: decode_ops f r
+    | 7 :: k :: r => Getitem k :: decode_ops f r
+    | 8 :: m :: r => Startswith (firstn (Z.to_nat m) r) :: decode_ops f (skipn (Z.to_nat m) r)
+    | 9 :: m :: r => Endswith (firstn (Z.to_nat m) r) :: decode_ops f (skipn (Z.to_nat m) r)
+    | 10 :: k :: r => ForwardUntil k :: decode_ops f r
+    | 11 :: k :: r => NumForwardUntil k :: decode_ops f r
+    | 12 :: r => Position :: decode_ops f r
+    | _ => []
+    end
+  end.
+
+Definition exn_code (e : exn) : Z :=
+  match e with
+  | StopIteration => 1 | IndexError => 2 | AssertionError => 3
+  | AttributeError => 4 | OutOfFuel => 5
+  end.
+
+Definition encode_out (o : out) : list Z :=
+  match o with
+  | OItem x => [1; x]
+  | ONone => [2]
+  | OItems l => 3 :: Z.of_nat (length l) :: l
+  | OBool b => [4; if b then 1 else 0]
+  | OInt z => [5; z]
+  | OExc e => [6; exn_code e]
+  end.
+
+Fixpoint run_enc (s : state) (ops : list op) : list Z :=
+  match ops with
+  | [] => []
+  | o :: r =>
+    let (s', x) := step s o in
+    encode_out x ++ [cursor s'; Z.of_nat (mat s')] ++ run_enc s' r
+  end.
+
+Definition run_buf (inp : list Z) : list Z :=
+  match inp with
+  | [] => []
+  | n :: r =>
+    let its := firstn (Z.to_nat n) r in
+    let code := skipn (Z.to_nat n) r in
+    run_enc (init_state its) (decode_ops (length code) code)
+  end.
